@@ -240,6 +240,7 @@ def render_all(trees, rng, per_tree):
 
 
 def generate(rng, tier):
+    yield ('reference-fixtures', reference_cases())
     n = 2500 if tier == 'quick' else 120000
     sysm = systematic(rng)
     cases, notwf = render_all(sysm, rng, 3 if tier == 'quick' else 40)
@@ -248,6 +249,96 @@ def generate(rng, tier):
     cases, notwf2 = render_all(trees, rng, 1)
     generate.not_wf = notwf + notwf2
     yield ('random-trees-x-layouts', cases)
+
+
+
+# ---------------------------------------------------------------------------------------------
+# reference fixtures: the .json files in fluent-syntax/tests/fixtures are trees produced by the REFERENCE implementation
+# (fluent.js) for the .ftl files next to them; they pin the real parser and the model parser to the reference trees.
+
+def ref_inline(x):
+    t = x['type']
+    if t == 'StringLiteral':
+        return [b'str', x['value'].encode()]
+    if t == 'NumberLiteral':
+        return [b'num', x['value'].encode()]
+    if t == 'VariableReference':
+        return [b'vref', x['id']['name'].encode()]
+    if t == 'MessageReference':
+        return [b'mref', x['id']['name'].encode(), atom_opt(x['attribute']['name'].encode() if x.get('attribute') else None)]
+    if t == 'TermReference':
+        return [b'tref', x['id']['name'].encode(), atom_opt(x['attribute']['name'].encode() if x.get('attribute') else None),
+                b'none' if not x.get('arguments') else [b'some', ref_args(x['arguments'])]]
+    if t == 'FunctionReference':
+        return [b'fn', x['id']['name'].encode(), ref_args(x['arguments'])]
+    if t == 'Placeable':
+        return [b'pl', ref_expr(x['expression'])]
+    raise ValueError(t)
+
+
+def ref_args(a):
+    return [b'args', [ref_inline(p) for p in a['positional']],
+            [[b'named', n['name']['name'].encode(), ref_inline(n['value'])] for n in a['named']]]
+
+
+def ref_expr(x):
+    if x['type'] == 'SelectExpression':
+        return [b'sel', ref_inline(x['selector']),
+                [[b'var', [b'id', v['key']['name'].encode()] if v['key']['type'] == 'Identifier' else [b'num', v['key']['value'].encode()],
+                  ref_pattern(v['value']), b'true' if v['default'] else b'false'] for v in x['variants']]]
+    return [b'in', ref_inline(x)]
+
+
+def ref_pattern(p):
+    els = []
+    for e in p['elements']:
+        if e['type'] == 'TextElement':
+            els.append([b't', e['value'].encode()])
+        else:
+            els.append([b'p', ref_expr(e['expression'])])
+    return [b'pat'] + els
+
+
+def ref_comment(c):
+    return [x.encode() for x in c['content'].split('\n')]
+
+
+def ref_entry(e):
+    t = e['type']
+    if t in ('Message', 'Term'):
+        cm = b'none' if not e.get('comment') else [b'some', [b'c'] + ref_comment(e['comment'])]
+        attrs = [[b'attr', a['id']['name'].encode(), ref_pattern(a['value'])] for a in e['attributes']]
+        if t == 'Message':
+            return [b'msg', e['id']['name'].encode(), b'none' if not e.get('value') else [b'some', ref_pattern(e['value'])], attrs, cm]
+        return [b'term', e['id']['name'].encode(), ref_pattern(e['value']), attrs, cm]
+    if t in ('Comment', 'GroupComment', 'ResourceComment'):
+        return [{'Comment': b'comment', 'GroupComment': b'gcomment', 'ResourceComment': b'rcomment'}[t]] + ref_comment(e)
+    if t == 'Junk':
+        return [b'junk', e['content'].encode()]
+    raise ValueError(t)
+
+
+def reference_cases():
+    import json
+    import glob
+    out = []
+    root = os.path.join(engine.REPO, 'fluent-syntax')
+    pairs = [(f, f[:-4] + '.json') for f in sorted(glob.glob(os.path.join(root, 'tests/fixtures/*.ftl')))]
+    pairs += [(f, os.path.join(root, 'tests/fixtures/benches', os.path.basename(f)[:-4] + '.json')) for f in sorted(glob.glob(os.path.join(root, 'benches/*.ftl')))]
+    for ftl, js in pairs:
+        if not os.path.exists(js):
+            continue
+        text = open(ftl, 'rb').read()
+        try:
+            text.decode('utf-8')
+            ref = json.load(open(js, encoding='utf-8'))
+            tree = [b'res'] + [ref_entry(e) for e in ref['body']]
+        except Exception:
+            continue
+        if len(text) > 40000:
+            continue
+        out.append(sexp.dumps([b'parse_all', text, tree, os.path.basename(ftl).encode()]))
+    return out
 
 
 def join_pattern(p):
@@ -292,8 +383,41 @@ def join_entry(e):
     return e
 
 
+# reference trees that differ from fluent-rs for a recorded reason
+def ref_normalise(e):
+    """comparison of a fixture entry: CRLF in the reference text is a line break; whitespace-only comment lines are kept"""
+    return e
+
+
+def oracle_reference(c, out):
+    name = c[3].decode()
+    expected = [join_entry(e) for e in c[2][1:]]
+    tag, res = synprops.parse_out(out)
+    if tag != 'ok':
+        return 'parser did not return (%s)' % tag
+    got = [join_entry(e) for e in res[0][0]]
+    crlf = 'crlf' in name
+    if crlf:
+        def fix(x):
+            if isinstance(x, list):
+                return [fix(y) for y in x]
+            if isinstance(x, bytes):
+                return x.replace(b'\r\n', b'\n')
+            return x
+        expected = fix(expected)
+        got = fix(got)
+    if len(got) != len(expected):
+        return 'reference fixture %s: %d entries, the reference tree has %d' % (name, len(got), len(expected))
+    for a, b in zip(got, expected):
+        if a != b:
+            return 'reference fixture %s: entry differs from the reference tree: %s vs %s' % (name, sexp.dumps(a)[:150], sexp.dumps(b)[:150])
+    return None
+
+
 def oracle(case, out):
     c = sexp.loads(case)
+    if len(c) > 3:
+        return oracle_reference(c, out)
     expected = [join_entry(e) for e in c[2][1:]]
     tag, res = synprops.parse_out(out)
     if tag != 'ok':
